@@ -81,3 +81,27 @@ Proof.
   - rewrite gen_twos_complement_is_model by lia. reflexivity.
 Qed.
 Print Assumptions gen_int_raw_is_model.
+
+(* ================= the property C04 (integers), stated of the function generated from the source =================
+   for every well-formed buffer and every field of n >= 1 bits inside it, the code's IntegerDataEncoding._get_raw_value (as translated)
+   returns the unsigned / two's-complement value of the addressed bits — of the field's bytes in reverse order when the encoding is
+   least-significant-byte-first over whole bytes — and moves the cursor by exactly n *)
+From SPP Require Import Proofs.CursorP Proofs.NumericP.
+Theorem generated_int_raw_meets_C04 B p n unsigned : wf B -> 0 <= p -> 1 <= n -> p + n <= 8 * zlen B ->
+  gen_int_raw (VBytes B) (VInt p) (VInt n) (VBool false) (VBool unsigned)
+  = Ok (VInt (if unsigned then spec_int B p n else signed_of n (spec_int B p n)), VInt (p + n)).
+Proof.
+  intros W Hp Hn Hin. rewrite gen_int_raw_is_model by assumption. unfold raw_numeric, int_enc, out_raw. cbn [ne_kind ne_size ne_order].
+  rewrite read_int_spec by (assumption || lia). cbn [bind cpos].
+  destruct (Z.ltb_spec n 1) as [?|_]; [lia|]. rewrite andb_false_r.
+  destruct unsigned; cbn [negb]; [reflexivity|]. rewrite twos_complement_spec; [reflexivity|lia|]. apply spec_int_range; (assumption || lia).
+Qed.
+Print Assumptions generated_int_raw_meets_C04.
+Theorem generated_int_raw_lsb_meets_C04 B p n : wf B -> 0 <= p -> 1 <= n -> p + n <= 8 * zlen B ->
+  gen_int_raw (VBytes B) (VInt p) (VInt n) (VBool true) (VBool true)
+  = Ok (VInt (from_be (rev (spec_bytes B p n))), VInt (p + n)).
+Proof.
+  intros W Hp Hn Hin. rewrite gen_int_raw_is_model by assumption. unfold raw_numeric, int_enc, out_raw. cbn [ne_kind ne_size ne_order].
+  rewrite read_int_spec by (assumption || lia). cbn [bind cpos negb andb]. reflexivity.
+Qed.
+Print Assumptions generated_int_raw_lsb_meets_C04.
